@@ -34,6 +34,11 @@ def _axis_specs(n):
     s += ["16B", "64B"]
     for c in compositions(n)[:: max(1, len(compositions(n)) // 6)]:
         s.append(tuple(c))
+    # explicit tuples that do NOT describe the axis: must be refused (or, if
+    # accepted, the result is judged like any other and fails the sum rule)
+    s.append((n + 1,))
+    if n >= 2:
+        s.append((1,) * (n - 1))
     return s
 
 
@@ -48,7 +53,7 @@ def plan(tier, seed):
         "coverage": {
             "exhaustive": True,
             "bounds": {"shapes": len(shards), "dtypes": DTYPES, "limits_bytes": _limits(tier), "tolerance": [1.0, 1.25]},
-            "rule": "every shape x every per-axis spec combination (ints, -1, None, 'auto', byte strings, explicit tuples, dict forms, whole-spec int/'auto'/bytes) x dtype x limit x previous_chunks (None, every 6th chunking of the shape, storage-style uniform) x chunk-size-tolerance: result is one non-empty tuple per axis, sizes >= 0 summing to the axis, no manufactured zero-size chunk on a non-zero axis, auto axes within limit*tolerance unless the fixed axes alone reach it, uniform c gives c,...,c,rest. A raise is a refusal counted by type. Non-trivial = accepted spec with an auto axis or producing > 1 block",
+            "rule": "every shape x every per-axis spec combination (ints, -1, None, 'auto', byte strings, explicit tuples, dict forms, whole-spec int/'auto'/bytes) x dtype x limit x previous_chunks (None, every 6th chunking of the shape, storage-style uniform) x chunk-size-tolerance: result is one non-empty tuple per axis, sizes >= 0 summing to the axis, no manufactured zero-size chunk on a non-zero axis, auto axes within limit*tolerance unless the fixed axes alone reach it, uniform c gives c,...,c,rest. Specs include explicit tuples and previous_chunks that do NOT describe the shape (refusal expected; an accepted one is judged by the same rules). A raise is a refusal counted by type. Non-trivial = accepted spec with an auto axis or producing > 1 block",
         },
         "assumptions": ["array.chunk-size-tolerance (documented slack) multiplies the limit for auto axes", "raises are refusals (the property speaks about accepted specs)"],
     }
@@ -156,6 +161,9 @@ def run_shard(shard):
     chs = list(itertools.product(*[compositions(n) for n in shape]))
     prevs = [None] + chs[:: max(1, len(chs) // 6)][:6]
     prevs.append(tuple((2,) * (n // 2) + ((n % 2,) if n % 2 else ()) if n else (0,) for n in shape))
+    if all(n >= 2 for n in shape):
+        # previous chunks that describe another (shorter) array
+        prevs.append(tuple((1,) * (n - 1) for n in shape))
     for spec in specs:
         has_auto = "auto" in repr(spec) or "B'" in repr(spec)
         for dtype in DTYPES if has_auto else ["f8"]:
